@@ -172,6 +172,11 @@ def check_rows(ctx, sheet, rows, hexd, hexh, files, via, all_ids=None):
         ctx.case(digest("absent", cols, rid, sorted(known)[:50]), True, ["absent-id", "via:" + via])
         if r.ok:
             ctx.violation("decode", dict(sub="unknown_id_returned_row", via=via), dict(row_id=rid, got=str(r.value)[:300]), files=files)
+    # rows of this sheet read by several threads at once from the one data / header object (only when handles are plain numbers:
+    # the direct route), a sample of sheets
+    if isinstance(hexd, int) and isinstance(hexh, int) and (ctx.rng.random() < 0.15 or ctx.variant == "miri"):
+        ids = [rid for rid, _ in rows][:30] + [x for x in (0, 2 ** 32 - 1) if x not in known]
+        ctx.shared_between_threads(["exd.read_row %d %d %d" % (hexd, hexh, rid) for rid in ids], "exd-rows", reps=10, files=files)
 
 
 def tname(t):
